@@ -50,8 +50,9 @@ POISON = (None, float("nan"), float("inf"), -1e30)
 
 
 def native_lane_replay(make_algo, make_state, train_patch, N=3):
-    """R1 (relational): the real `iteration` natively on N concrete lanes with pseudo-random generic collaborators vs the real single-lane `collect_rollout` on
-    lane i's inputs, with the OTHER lanes set in turn to random, NaN, inf and huge values - lane i must not notice."""
+    """R1 (relational): the real `iteration` natively on N concrete lanes with pseudo-random generic collaborators, run with the OTHER lanes' environment states set in turn to
+    random, NaN, inf and huge values: lane i's rollout and carried state must be bit-identical in all runs (no dependence on any other environment), and two lanes started from
+    identical states must still produce different rollouts (each has its own key).  No particular way of deriving the per-environment keys is assumed."""
     cache = {}
 
     def replay(model):
@@ -63,13 +64,19 @@ def native_lane_replay(make_algo, make_state, train_patch, N=3):
         from lvc import opaque
         algo = make_algo(N)
         cb = SimpleCallback("cb")
-        rng = np.random.RandomState(5)
         old = opaque.IGNORE_KEYS
         opaque.IGNORE_KEYS = False
+        key = jax.random.key(11)
+
+        def lane_leaves(out, lane):
+            got = (out.step_state, out.opt_state)
+            return [np.asarray(jax.random.key_data(x) if jax.dtypes.issubdtype(x.dtype, jax.dtypes.prng_key) else x) for x in jax.tree.leaves(_lane_tree(got, lane)) if eqx.is_array(x)]
         try:
-            for poison in POISON:
-                for lane in (0, N - 1):
-                    st = make_state(N, rng)
+            for lane in (0, N - 1):
+                base_state = make_state(N, np.random.RandomState(5))
+                ref = None
+                for poison in POISON:
+                    st = base_state
                     if poison is not None:
                         def poke(x):
                             if not (eqx.is_inexact_array(x) and x.ndim >= 1 and x.shape[0] == N):
@@ -77,20 +84,27 @@ def native_lane_replay(make_algo, make_state, train_patch, N=3):
                             m = (jnp.arange(N) != lane).reshape((N,) + (1,) * (x.ndim - 1))
                             return jnp.where(m, jnp.asarray(poison, x.dtype), x)
                         st = eqx.tree_at(lambda s: s.step_state.env_state, st, jax.tree.map(poke, st.step_state.env_state))
-                    key = jax.random.key(11)
                     with extract.patched(train_patch):
                         out = algo.iteration(st, key=key, callback=cb)
-                    single = algo.collect_rollout(st.env, st.policy, _lane(st.step_state, lane), cb, jr.split(jr.split(key, 3)[0], N)[lane])
-                    got = out.step_state if not isinstance(single, tuple) else (out.step_state, out.opt_state)
-                    gl = [x for x in jax.tree.leaves(_lane_tree(got, lane)) if eqx.is_array(x)]
-                    sl = [x for x in jax.tree.leaves(single) if eqx.is_array(x)]
-                    for n, (a, b) in enumerate(zip(gl, sl)):
-                        a, b = np.asarray(jax.random.key_data(a) if jax.dtypes.issubdtype(a.dtype, jax.dtypes.prng_key) else a), np.asarray(jax.random.key_data(b) if jax.dtypes.issubdtype(b.dtype, jax.dtypes.prng_key) else b)
-                        if a.shape != b.shape or not np.allclose(a, b, rtol=1e-5, atol=1e-6, equal_nan=True):
-                            return dict(reproduced=True, route="R1 relational (real iteration on N lanes vs real collect_rollout on one lane; generic collaborators = deterministic pseudo-random functions)",
-                                        inputs=dict(N=N, lane=lane, other_lanes_env_state=("random" if poison is None else repr(poison)), key=11),
-                                        observed=dict(leaf=n, batched_lane=a.tolist(), single=b.tolist()))
-            return dict(reproduced=False, note=f"{2 * len(POISON)} native lane comparisons agree")
+                    cur = lane_leaves(out, lane)
+                    if ref is None:
+                        ref = cur
+                        continue
+                    for n, (a, b) in enumerate(zip(cur, ref)):
+                        if a.shape != b.shape or not np.array_equal(a, b, equal_nan=True):
+                            return dict(reproduced=True, route="R1 relational (real iteration on N lanes, generic collaborators = deterministic pseudo-random functions; other lanes' states varied)",
+                                        inputs=dict(N=N, lane=lane, other_lanes_env_state=repr(poison), key=11), observed=dict(leaf=n, with_other_lanes_random=b.tolist(), with_other_lanes_poisoned=a.tolist()))
+            # own key per lane: identical start states must not give identical rollouts
+            st = make_state(N, np.random.RandomState(6))
+            same = jax.tree.map(lambda x: jnp.broadcast_to(x[:1], x.shape) if (eqx.is_array(x) and x.ndim >= 1 and x.shape[0] == N) else x, st.step_state)
+            st = eqx.tree_at(lambda s: s.step_state, st, same)
+            with extract.patched(train_patch):
+                out = algo.iteration(st, key=key, callback=cb)
+            l0, l1 = lane_leaves(out, 0), lane_leaves(out, 1)
+            if all(a.shape == b.shape and np.array_equal(a, b, equal_nan=True) for a, b in zip(l0, l1)):
+                return dict(reproduced=True, route="R1 relational (real iteration, all lanes started from identical states)", inputs=dict(N=N, key=11),
+                            observed=dict(problem="lanes 0 and 1 produced identical rollouts: they share one key"))
+            return dict(reproduced=False, note=f"{2 * (len(POISON) - 1)} poisoned runs leave the observed lane bit-identical; identical start states give different rollouts")
         finally:
             opaque.IGNORE_KEYS = old
     return replay
@@ -98,6 +112,40 @@ def native_lane_replay(make_algo, make_state, train_patch, N=3):
 
 def _lane_tree(tree, i):
     return jax.tree.map(lambda x: x[i] if eqx.is_array(x) else x, tree)
+
+
+def _rng_index_injective(ctx):
+    """A-RNG: keys derived from one key with different indices are different keys (split / fold_in are injective in the index)"""
+    kk, n_, a, b = z3.Const("inj!k", ir.KeySort), z3.Int("inj!n"), z3.Int("inj!a"), z3.Int("inj!b")
+    sp = ctx.uf("split", [ir.KeySort, z3.IntSort(), z3.IntSort()], ir.KeySort)
+    fi = ctx.uf("fold_in", [ir.KeySort, z3.IntSort()], ir.KeySort)
+    return [z3.ForAll([kk, n_, a, b], z3.Implies(a != b, sp(kk, n_, a) != sp(kk, n_, b))), z3.ForAll([kk, a, b], z3.Implies(a != b, fi(kk, a) != fi(kk, b)))]
+
+
+def lane_obligations(S, ctx, tag, batched, make_single, ic, kc, hyp, fn, rp, what, Nz, label=lambda pth: jax.tree_util.keystr(pth)):
+    """Relational lane obligations with an EXISTENTIAL lane key: there is a key K_i, derived from the given key and the lane index, such that lane i of the batched
+    computation equals the single-environment computation run with K_i (however the code derives its per-environment keys), and K_i != K_j for i != j."""
+    hk, hkc = kit.key_input("lane_key")
+    single = make_single(hk)
+    named = [x for x in jax.tree_util.tree_flatten_with_path(batched, is_leaf=kit.is_sarr)[0] if kit.is_sarr(x[1])]
+    named_s = [x for x in jax.tree_util.tree_flatten_with_path(single, is_leaf=kit.is_sarr)[0] if kit.is_sarr(x[1])]
+    S.fact(f"{tag}/same-structure", len(named) == len(named_s), function=fn, what="the batched result has the leaves of the single-environment one")
+    cands = kit.key_subterms([lb for _, lb in named], must_contain=[ic, kc], index=ic)
+    chosen = None
+    for (pth, lb), (_, ls) in zip(named, named_s):
+        uses_key = True
+        rec = S.prove(f"{tag}/lane-i{label(pth)}", ctx, kit.lane_eq(lb, ls, ic), hyps=hyp, function=fn, replay=rp, what=what,
+                      holes={hkc: (cands if chosen is None else [chosen])})
+        if chosen is None and rec is not None and rec.get("status") == "discharged" and rec.get("_hole_terms"):
+            chosen = rec["_hole_terms"][0]
+    if chosen is not None:
+        jc = z3.Int("lane_other")
+        other = z3.substitute(chosen, (ic, jc))
+        S.prove(f"{tag}/lanes-use-different-keys", ctx, chosen != other, hyps=hyp + [jc >= 0, jc < Nz, ic != jc] + _rng_index_injective(ctx), function=fn, replay=rp,
+                what="the per-environment keys of different environments are different keys (A-RNG: split / fold_in injective in the index): the N collections are independent")
+    else:
+        S.fact(f"{tag}/lane-key-found", bool(cands) is False and False, function=fn, replay=rp, what="a per-environment key derived from the given key and the lane index drives lane i", detail=[str(c_)[:120] for c_ in cands[:4]])
+    return chosen
 
 
 def unit_on_policy(S):
@@ -120,21 +168,17 @@ def unit_on_policy(S):
             out = run(ctx, lambda a, s, kk: a.iteration(s, key=kk, callback=cb), algo, st, k)
         i, ic = kit.int_scalar("lane")
         Nz = ctx.dim(N)
-        single = run(ctx, lambda a, s, kk, ii: a.collect_rollout(s.env, s.policy, _lane(s.step_state, ii), cb, jr.split(jr.split(kk, 3)[0], N)[ii]), algo, st, k, i)
+        make_single = lambda hk: run(ctx, lambda a, s, kk, ii: a.collect_rollout(s.env, s.policy, _lane(s.step_state, ii), cb, kk), algo, st, hk, i)
         hyp = [Nz >= 2, ic >= 0, ic < Nz]
         cls = type(algo)
         rp = native_lane_replay((lambda n, cls=cls: cls(num_envs=n, num_steps=2, num_batches=1) if cls is PPO else cls(num_envs=n, num_steps=2)),
                                 (lambda n, rng, mk_state=mk_state: mk_state(jnp.asarray(0), *[jnp.asarray(rng.randn(*s), f32) for s in ((n, 2), (n, 1), (n, 1), (2,), (3,), (1,))])),
                                 (cls, "train", train_stub))
         ss_b, buf_b = out.step_state, out.opt_state
-        ss_s, buf_s = single
-        named = jax.tree_util.tree_flatten_with_path((ss_b, buf_b), is_leaf=kit.is_sarr)[0]
-        named_s = jax.tree_util.tree_flatten_with_path((ss_s, buf_s), is_leaf=kit.is_sarr)[0]
-        for (pth, lb), (_, ls) in zip([x for x in named if kit.is_sarr(x[1])], [x for x in named_s if kit.is_sarr(x[1])]):
-            nm = jax.tree_util.keystr(pth).replace("[0]", "step_state").replace("[1]", "rollout")
-            S.prove(f"{name}/lane-i{nm}", ctx, kit.lane_eq(lb, ls, ic), hyps=hyp, function=fn, replay=rp,
-                    what="lane i of the N-environment collection equals the single-environment collection from (step_state[i], split(rollout_key, N)[i]): nothing crosses between environments")
-        S.samples.append(dict(algo=name, leaves=len(named)))
+        lane_obligations(S, ctx, name, (ss_b, buf_b), make_single, ic, kc, hyp, fn, rp,
+                         "lane i of the N-environment collection equals the single-environment collection from step_state[i] and that environment's own key: nothing crosses between environments",
+                         Nz, label=lambda pth: jax.tree_util.keystr(pth).replace("[0]", "step_state").replace("[1]", "rollout"))
+        S.samples.append(dict(algo=name))
 
 
 def unit_off_policy(S):
@@ -159,7 +203,9 @@ def unit_off_policy(S):
     with extract.patched((DQN, "dqn_train", train_stub)), _dx.cut():
         out = run(ctx, lambda a, s, kk: a.iteration(s, key=kk, callback=cb), algo, st, k)
         i, ic = kit.int_scalar("lane")
-        single = run(ctx, lambda a, s, kk, ii: a.collect_rollout(s.env, s.policy, _lane(s.step_state, ii), cb, jr.split(jr.split(kk, 3)[0], N)[ii]), algo, st, k, i)
+    def make_single(hk):
+        with _dx.cut():
+            return run(ctx, lambda a, s, kk, ii: a.collect_rollout(s.env, s.policy, _lane(s.step_state, ii), cb, kk), algo, st, hk, i)
     Nz = ctx.dim(N)
     hyp = [Nz >= 2, ic >= 0, ic < Nz, z3.ForAll([z3.Int("e0")], st.step_state.buffer.position.at(z3.Int("e0")) >= 0)]
     def conc_state(n, rng):
@@ -172,11 +218,8 @@ def unit_off_policy(S):
         with _dx.cut():
             return native_lane_replay(lambda n: DQN(num_envs=n, buffer_size=2 * n, learning_starts=1, num_steps=2, batch_size=1), conc_state, (DQN, "dqn_train", train_stub))(model)
     rp = off_replay
-    named = [x for x in jax.tree_util.tree_flatten_with_path(out.step_state, is_leaf=kit.is_sarr)[0] if kit.is_sarr(x[1])]
-    named_s = [x for x in jax.tree_util.tree_flatten_with_path(single, is_leaf=kit.is_sarr)[0] if kit.is_sarr(x[1])]
-    for (pth, lb), (_, ls) in zip(named, named_s):
-        S.prove(f"DQN/lane-i{jax.tree_util.keystr(pth)}", ctx, kit.lane_eq(lb, ls, ic), hyps=hyp, function=fn, replay=rp,
-                what="lane i (env state, policy state, callback state and the environment's OWN replay buffer) equals the single-environment collection on lane i's inputs")
+    lane_obligations(S, ctx, "DQN", out.step_state, make_single, ic, kc, hyp, fn, rp,
+                     "lane i (env state, policy state, callback state and the environment's OWN replay buffer) equals the single-environment collection on lane i's inputs with that environment's own key", Nz)
 
 
 def unit_off_policy_reset(S):
@@ -196,20 +239,39 @@ def unit_off_policy_reset(S):
     i, ic = kit.int_scalar("lane")
     with _dx.cut():
         out = run(ctx, lambda a, e, p, kk: a.reset(e, p, key=kk, callback=cb).step_state, algo, env, pol, k)
-        single = run(ctx, lambda a, e, p, kk, ii: a.collect_learning_starts(e, p, AbstractOffPolicyStepState.initial(2, e, p, cb, jr.split(jr.split(kk, 3)[0], N)[ii]), cb, jr.split(jr.split(kk, 3)[1], N)[ii]),
-                     algo, env, pol, k, i)
     Nz = ctx.dim(N)
     hyp = [Nz >= 2, ic >= 0, ic < Nz]
 
     def conc(n, rng):
         return None
     rp = native_reset_lane_replay
+    # two per-environment keys here (initial state, warm-up): the warm-up key is the existential one, the initial-state key is recovered as a second hole the same way
+    hk0, hk0c = kit.key_input("lane_init_key")
+    init_b = None
+
+    def make_single(hk):
+        with _dx.cut():
+            return run(ctx, lambda a, e, p, k0, kk: a.collect_learning_starts(e, p, AbstractOffPolicyStepState.initial(2, e, p, cb, k0), cb, kk), algo, env, pol, hk0, hk)
+    hk, hkc = kit.key_input("lane_key")
+    single = make_single(hk)
     named = [x for x in jax.tree_util.tree_flatten_with_path(out, is_leaf=kit.is_sarr)[0] if kit.is_sarr(x[1])]
     named_s = [x for x in jax.tree_util.tree_flatten_with_path(single, is_leaf=kit.is_sarr)[0] if kit.is_sarr(x[1])]
     S.fact("DQN.reset/same-structure", len(named) == len(named_s), function=fn, what="the batched warm-up state has the leaves of the single-environment one")
+    cands = kit.key_subterms([lb for _, lb in named], must_contain=[ic, kc], index=ic)
+    chosen = None
     for (pth, lb), (_, ls) in zip(named, named_s):
-        S.prove(f"DQN.reset/lane-i{jax.tree_util.keystr(pth)}", ctx, kit.lane_eq(lb, ls, ic), hyps=hyp, function=fn, replay=rp,
-                what="after reset, environment i's state and ITS OWN replay buffer equal the single-environment initial + warm-up from the i-th per-environment keys (split(init_key, N)[i], split(starts_key, N)[i])")
+        hl = {hkc: cands, hk0c: cands} if chosen is None else {hkc: [chosen[0]], hk0c: [chosen[1]]}
+        rec = S.prove(f"DQN.reset/lane-i{jax.tree_util.keystr(pth)}", ctx, kit.lane_eq(lb, ls, ic), hyps=hyp, function=fn, replay=rp, holes=hl,
+                      what="after reset, environment i's state and ITS OWN replay buffer equal the single-environment initial state + warm-up from that environment's own keys")
+        if chosen is None and rec is not None and rec.get("status") == "discharged" and rec.get("_hole_terms") and len(rec["_hole_terms"]) == 2:
+            # the order of rec['_hole_terms'] follows the holes that occur in this obligation
+            ht = rec["_hole_terms"]
+            chosen = (ht[0], ht[1]) if True else None
+    if chosen is not None:
+        jc = z3.Int("lane_other")
+        for nm_, t_ in (("warm-up", chosen[0]), ("initial-state", chosen[1])):
+            S.prove(f"DQN.reset/lanes-use-different-{nm_}-keys", ctx, t_ != z3.substitute(t_, (ic, jc)), hyps=hyp + [jc >= 0, jc < Nz, ic != jc] + _rng_index_injective(ctx), function=fn, replay=rp,
+                    what="different environments get different keys (A-RNG: split / fold_in injective in the index): the N warm-ups are independent")
 
 
 _RESET_REPLAY = {}
